@@ -463,6 +463,26 @@ def statement():
     return st.one_of(select(2), select(1), select(1), insert(), update(), delete(), create_table(), drop_alter(), cte()).map(wrap)
 
 
+@functools.lru_cache(maxsize=None)
+def case_heavy_select():
+    """SELECT whose items are CASE expressions with AND/OR conditions (the general grammar reaches CASE in ~2% of cases)"""
+    c = st.one_of(cond(1), cond(1), cond(0))
+    e = expr(0)
+    case = st.tuples(st.one_of(st.none(), st.none(), e), st.lists(st.tuples(c, e), min_size=1, max_size=3), st.one_of(st.none(), e)).map(lambda t: case_expr(*t))
+    item = st.one_of(st.tuples(case, alias).map(lambda t: with_alias(*t)), st.tuples(case, alias).map(lambda t: with_alias(*t)), e)
+
+    def mk(items, frm, where, order):
+        out = [L('kw', 'SELECT', False, lead='SELECT')]
+        out += W('list', comma_list([W('item', i) for i in items]), ctx='select', n=len(items))
+        out += seq(kw('FROM', clause=True), frm)
+        if where is not None:
+            out += W('where', seq(kw('WHERE', clause=True), where))
+        if order is not None:
+            out += seq(kw('ORDER BY', clause=True), order)
+        return W('stmt', out, type='SELECT')
+    return st.builds(mk, st.lists(item, min_size=1, max_size=3), column_ref, st.one_of(st.none(), cond(1)), st.one_of(st.none(), case))
+
+
 def small_statement():
     def wrap(lx):
         lead = next((l[3].get('lead') for l in lx if l[0] != 'mark'), None)
@@ -577,7 +597,7 @@ def layout(draw, lex, comments=0, ws=True, case=True, tight=True, inner=True, co
             inn = WS_INNER[(c >> 20) % len(WS_INNER)] if inner else ' '
             text = respell_kw(text, cc, inn)
         cur = [l[0], text, l[2], meta]
-        if comments and prev is not None and ((c >> 7) & 127) >= 128 - (comments * 128) // 100:
+        if comments and prev is not None and not meta.get('force') and ((c >> 7) & 127) >= 128 - (comments * 128) // 100:       # never split a forced-tight pair (a.b, a[1], f()
             ctext = draw(comment_strategy or COMMENT)
             cm = ['comment', ctext, True, {}]
             if can_tight(prev, cm) and (c >> 5) & 1:
@@ -646,7 +666,7 @@ SEMI = ['semi', ';', True, {}]
 def script(draw, min_statements=1, max_statements=4, comments=10, stmt=None, last_semi=None, **lay):
     """-> laid-out lexeme list (with marks) of k statements separated by ';' lexemes"""
     k = draw(st.integers(min_statements, max_statements))
-    stmts = [draw(stmt or statement()) for _ in range(k)]
+    stmts = [draw(stmt if stmt is not None else statement()) for _ in range(k)]
     lex = []
     for i, s in enumerate(stmts):
         lex.extend(s)
